@@ -138,7 +138,7 @@ def cases(tier, seed):
         # the circuit families of C01 and seeded random region-graph circuits (some with frozen tensors)
         from checks import C01
 
-        extra = [c for c in C01._hand(tier) if c.get("name") != "hetero-params"] + families.random_members(seed + 2000, 150)
+        extra = [c for c in C01._hand(tier) if c.get("name") != "hetero-params"] + families.random_members(2001, 150)
         for i, c in enumerate(extra):
             c = dict(c)
             if i % 4 == 1:
